@@ -92,6 +92,21 @@ Proof.
 Qed.
 Print Assumptions C03_toggles_even.
 
+(** ALL schedules, write-once discipline behind the step granularity: in one use, the left and the
+    right register of every node are each written by at most one goroutine step (counted over the
+    steps taken so far: [Cc]); the only reads of the registers are by the goroutine whose toggle
+    came second, after both writes *)
+Theorem C03_registers_written_once : forall (H HF : list N -> list N) D buf0 ns0 hdr ws sched, tree_ok D buf0 ns0 ->
+  let s := run H HF D (init buf0 ns0 hdr ws) sched in
+  forall l i, l < D ->
+  Cc KR l (2 * i) s + Cc KS l (2 * i) s <= 1 /\
+  Cc KR l (2 * i + 1) s + Cc KS l (2 * i + 1) s + Cc KS l (2 * i) s + Cc KN l (2 * i) s <= 1.
+Proof.
+  intros H HF D buf0 ns0 hdr ws sched Hok s l i Hl.
+  exact (registers_written_once H HF D ws hdr s l i (run_inv H HF D ws hdr _ sched (init_inv H HF D ws hdr buf0 ns0 Hok)) Hl).
+Qed.
+Print Assumptions C03_registers_written_once.
+
 (** ALL schedules, termination: no step increases the measure, every state that is not quiescent
     has a step that decreases it, so every execution can be completed and none is infinite; the
     number of effective steps is at most (writes + 1) * (2^D (D + 2) + 1) *)
